@@ -166,7 +166,6 @@ def history_of_active_parent(xml, enabled_xpaths):
 VARIANTS = [
     ("postfix_order", "C01-transition-content-order-postfix-vs-appendix-d"),
     ("alt_after_preempt", "C01-selection-continues-after-preempted-transition"),
-    ("shared_history", "C01-history-memory-shared-between-nested-scopes"),
 ]
 
 
